@@ -35,10 +35,13 @@ def search_inputs(seed, n):
             ports.append(port(g, nm, treegen.meta_bytes(m) if m else []))
         # one real sub-tree so that a location can address children below the root
         kids = [port(g, rng.choice(["y", "yy", "y/", "z"]), treegen.meta_bytes(rng.choice(metas) or [])) for _ in range(rng.randint(1, 3))]
+        # and a sub-tree inside it: a location two levels down
+        deep = [port(g, rng.choice(["y", "a", "ab", "q/"]), treegen.meta_bytes(rng.choice(metas) or [])) for _ in range(rng.randint(1, 3))]
+        kids.insert(rng.randrange(len(kids) + 1), port(g, "deep/", [], dict(dflt=False, ports=deep)))
         ports.insert(rng.randrange(len(ports) + 1), port(g, "sub/", [], dict(dflt=False, ports=kids)))
         tb = dict(dflt=False, ports=ports)
         qs = []
-        for loc in ("", "/", "/sub/"):
+        for loc in ("", "/", "/sub/", "/sub/deep/"):
             for needle in ("", "a", "ab", "a/", "b", "y", "zz", "c/"):
                 for opt in (0, 1, 2):
                     if rng.random() < 0.5:
@@ -52,7 +55,7 @@ def run(ctx):
                 "lookup: every walked address of the C09 tables (side condition: no namesakes, no sibling prefix); search: seeded random tables of 2..8 "
                 "children drawn from 14 names (duplicates, common prefixes, 'name/' entries with names below them) x 6 metadata shapes x "
                 "(location, prefix, option, with/without query echo); non-trivial = distinct path with a '..' / distinct (table, query)")
-    ctx.assumptions = ["the location of a child search is the root ('' or '/') or a sub-tree port addressed by its exact name",
+    ctx.assumptions = ["the location of a child search is the root ('' or '/') or a sub-tree port (one or two levels down) addressed by its exact name",
                        "equal names may appear in any relative order after sorting (std::sort is not stable)"]
     if ctx.replay:
         case = json.load(open(ctx.replay))["case"]
